@@ -86,3 +86,17 @@ Record l2_inv (c : cfg) (s : l2state) : Prop := {
   i2_info : ∀ bi, info s = Some bi → binfo_valid bi = true;
   i2_pairs : ∀ d v, pairs s !! d = Some v → valid_denom d = true;
 }.
+
+(* ---- reachable states of the L2: any interleaving of messages and block ends ---- *)
+(* A block end is the EndBlocker with or without an executor-change plan registered for that
+   height.  A failing EndBlocker halts the chain (no successor state).  A plan must name an
+   operator address and a consensus key that are not in use (the freshness premise of C14;
+   plans violating it are the open findings D8 / D9; a plan arriving at the validator cap makes
+   the EndBlocker fail - D10 - and therefore has no successor state here). *)
+Inductive l2_reach (c : cfg) (s0 : l2state) : l2state → Prop :=
+| reach_init : l2_reach c s0 s0
+| reach_msg s m : l2_reach c s0 s → l2_reach c s0 (step c s m).1
+| reach_end s pl s' ups :
+    l2_reach c s0 s →
+    (∀ p, pl = Some p → vals (vs s) !! pl_op p = None ∧ idx (vs s) !! pl_key p = None) →
+    end_block c s pl = Some (s', ups) → l2_reach c s0 s'.
